@@ -573,10 +573,82 @@ def ping_behind_a_failing_frame(ctx, only=None):
             break
 
 
+def pause_lifted_over_short_writes(ctx, only=None):
+    """The pause and its acknowledgement one layer down, on the ssh pipe itself: end A, over its budget, queues the
+    rttest PING behind its data; both pipes take only part of what they are offered (a pipe that is nearly full, a
+    frame larger than what the pipe takes at once), with the cut falling inside the data, inside the PING, inside the
+    PONG.  Whatever the cuts, B decodes A's frames intact, answers the PING, and A's pause is lifted.  Real Mux.send /
+    check_fullness / flush / handle / got_packet on both ends; only the two pipes are scripted."""
+    from props import c07
+    import random
+    ssnet, _client, _helpers = c07._mods()
+    plans = [('tiny', [5]), ('one', [1]), ('hdr', [8]), ('hdr+1', [9]), ('odd', [2047, 3, 11]), ('mixed', [1500, 7, 64, 1, 4096]),
+             ('big-then-5', [1 << 20, 5]), ('5-then-big', [5, 1 << 20])]
+    for budget in (2048, 5000):
+        for name, grants in plans:
+            if only is not None and only != [budget, name]:
+                continue
+            ctx.count()
+            ctx.hist('directed:pause-over-short-writes')
+            ctx.mark(('pause-over-short-writes', budget, name), True)
+            saved = ssnet.LATENCY_BUFFER_SIZE
+            what = None
+            try:
+                ssnet.LATENCY_BUFFER_SIZE = budget
+                ar, aw = c07.ScriptedR(), c07.ScriptedW()
+                br, bw = c07.ScriptedR(), c07.ScriptedW()
+                a, b = ssnet.Mux(ar, aw), ssnet.Mux(br, bw)
+                got = []
+                b.channels[7] = lambda cmd, data: got.append(bytes(data))
+                rnd = random.Random(budget * 131 + len(name))
+                payload = [bytes(rnd.randrange(256) for _ in range(2048)) for _ in range(budget // 2048 + 2)]
+                for chunk in payload:
+                    a.send(7, ssnet.CMD_TCP_DATA, chunk)
+                a.check_fullness()
+                if not a.too_full:
+                    what = 'harness: the sender is not over its budget'
+                apos = bpos = 0
+                k = 0
+                for _ in range(20000):
+                    if what or not (a.outbuf or b.outbuf or apos < len(aw.written) or bpos < len(bw.written)):
+                        break
+                    for (m, w) in ((a, aw), (b, bw)):
+                        if m.outbuf:
+                            w.grant = grants[k % len(grants)]
+                            k += 1
+                            m.flush()
+                    if apos < len(aw.written):
+                        n = min(len(aw.written) - apos, budget)      # one read of the tunnel takes at most the budget
+                        br.next = ('d', aw.written[apos:apos + n])
+                        apos += n
+                        b.handle()
+                    if bpos < len(bw.written):
+                        n = min(len(bw.written) - bpos, budget)
+                        ar.next = ('d', bw.written[bpos:bpos + n])
+                        bpos += n
+                        a.handle()
+                if what is None and b''.join(got) != b''.join(payload):
+                    what = 'the peer decoded %d of %d payload bytes (or other bytes)' % (len(b''.join(got)), len(b''.join(payload)))
+                if what is None and a.too_full:
+                    what = ('both pipes drained, the sender is still paused: its rttest PING was never acknowledged '
+                            '(peer decoded %d payload bytes)' % len(b''.join(got)))
+            except Exception as e:  # noqa
+                what = 'raised %s: %s' % (type(e).__name__, str(e)[:160])
+            finally:
+                ssnet.LATENCY_BUFFER_SIZE = saved
+            if what:
+                ctx.violation('C09:wire:pause-not-lifted-over-short-writes',
+                              case=dict(kind='pause-over-short-writes', budget=budget, plan=name),
+                              expected='the peer gets the frames intact, answers the rttest PING, the pause is lifted '
+                                       '(pipe grants per write: %r, cyclically)' % (grants,), observed=what)
+                return
+
+
 def run(ctx):
     rng = ctx.rng
     tg.set_verbosity_seed(ctx.seed)
     server_start(ctx)
+    pause_lifted_over_short_writes(ctx)
     loop_wiring(ctx)
     server_loop_keeps_answering(ctx)
     ping_behind_a_failing_frame(ctx)
@@ -670,6 +742,11 @@ def replay(ctx, rep):
         server_loop_keeps_answering(c2, only=case['size'])
         hit = [v for v in c2.violations if v['key'] == rep['key']]
         return bool(hit), (hit[0]['observed'] if hit else 'the PING after the burst is answered')
+    if case.get('kind') == 'pause-over-short-writes':
+        c2 = type(ctx)(ctx.prop_id, 'quick', 0)
+        pause_lifted_over_short_writes(c2, only=[case['budget'], case['plan']])
+        hit = [v for v in c2.violations if v['key'] == rep['key']]
+        return bool(hit), (hit[0]['observed'] if hit else 'frames intact, PING answered, pause lifted')
     if case.get('kind') == 'ping-behind-failing-frame':
         c2 = type(ctx)(ctx.prop_id, 'quick', 0)
         ping_behind_a_failing_frame(c2, only=[case['errno'], case['before'], case['after']])
